@@ -106,6 +106,8 @@ static void noisehist(const Req &req, std::ostream &out) {
     size_t shots = (size_t)req.iarg(3, 1000);
     Circuit c(req.payload());
     std::map<std::string, uint64_t> h;
+    std::vector<std::string> seq;
+    bool want_pairs = req.iarg(5, 0) != 0;
     std::mt19937_64 rng(seed);
     if (sim == "frame") {
         auto ref = TableauSimulator<W>::reference_sample_circuit(c);
@@ -116,6 +118,7 @@ static void noisehist(const Req &req, std::ostream &out) {
             for (size_t k = 0; k < m; k++)
                 if (t[s][k]) line[k] = '1';
             h[line]++;
+            if (want_pairs) seq.push_back(line);
         }
     } else if (sim == "tableau") {
         size_t m = c.count_measurements();
@@ -129,6 +132,7 @@ static void noisehist(const Req &req, std::ostream &out) {
             for (size_t k = 0; k < m; k++)
                 if (ts.measurement_record.storage[k]) line[k] = '1';
             h[line]++;
+            if (want_pairs) seq.push_back(line);
         }
     } else if (sim == "detect") {
         auto stats = c.compute_stats();
@@ -138,6 +142,7 @@ static void noisehist(const Req &req, std::ostream &out) {
             for (size_t k = 0; k < stats.num_detectors; k++) line += r.first[k][s] ? '1' : '0';
             for (size_t k = 0; k < stats.num_observables; k++) line += r.second[k][s] ? '1' : '0';
             h[line]++;
+            if (want_pairs) seq.push_back(line);
         }
     } else if (sim == "dem") {
         double approx = std::stod(req.arg(4, "0"));
@@ -149,12 +154,21 @@ static void noisehist(const Req &req, std::ostream &out) {
             for (size_t k = 0; k < sampler.num_detectors; k++) line += sampler.det_buffer[k][s] ? '1' : '0';
             for (size_t k = 0; k < sampler.num_observables; k++) line += sampler.obs_buffer[k][s] ? '1' : '0';
             h[line]++;
+            if (want_pairs) seq.push_back(line);
         }
     } else {
         out << "ERR unknown sim\n";
         return;
     }
     print_hist(out, h);
+    if (want_pairs) {
+        // consecutive shots, non-overlapping pairs (2i, 2i+1): independence of different shots
+        std::map<std::pair<std::string, std::string>, uint64_t> hp;
+        for (size_t k = 0; k + 1 < seq.size(); k += 2) hp[{seq[k], seq[k + 1]}]++;
+        for (const auto &kv : hp)
+            out << "P " << (kv.first.first.empty() ? "-" : kv.first.first) << " " << (kv.first.second.empty() ? "-" : kv.first.second) << " "
+                << kv.second << "\n";
+    }
 }
 SVH_CMD(noisehist) {
     BY_W5(noisehist, req, out);
